@@ -149,6 +149,23 @@ CHECKS = {
         technique="Coq proof (string-level parsing lemmas, decimal round trip, exact small-integer "
                   "arithmetic) + bit-exact differential correspondence evaluated by vm_compute",
         design_ref="DESIGN.md section 6/C19"),
+    'C04': dict(
+        text="Theorems (Props/C04.v) over every interleaving of external events, timer expirations "
+             "and stops accepted by the model: duration precedence (event item > t_STATE > class "
+             "default), at most one live timer handle and it is the one the FSM refers to and does "
+             "not lie in the past, a handle that fires is the current one and fires exactly at its "
+             "time (no stale timed event), a rejected timed event leaves the state without timer "
+             "(no live handle, no reported expiry), nothing pending and nothing can fire after the "
+             "stop; link theorem agree->monitor. Tie: generic timed FSMs, Timer and InputExp on the "
+             "virtual clock with events before/at/after expiries; the interleaving taken by asyncio "
+             "is the acceptor's input.",
+        technique="Coq proof (invariant over step lists) + trace acceptance and monitor evaluated "
+                  "by vm_compute",
+        level_note="Trusted: Coq kernel/vm_compute, hand-written model tied by this run's "
+                   "correspondence; that asyncio runs timer handles in (when, creation) order is not "
+                   "proved (partial: the loop is the model's handle list), it is validated by the "
+                   "acceptor on every case.",
+        design_ref="DESIGN.md section 6/C04"),
 }
 
 NOT_YET = "check not built yet in this round (planned: Coq model + theorems + correspondence, see DESIGN.md section 6)"
